@@ -328,8 +328,11 @@ def strat_config(draw, names, ondemand=False):
 # operator of an assembler constructed afresh with the fields that are current according to the history.
 
 WRAP_PROBLEMS = {
-    2: ("f * u * v * dx + g * inner(grad(u), grad(v)) * dx", ["u", "v"]),
-    1: ("(f + g * g) * v * dx", ["v"]),
+    (2, 0): ("f * u * v * dx + g * inner(grad(u), grad(v)) * dx", ["u", "v"]),
+    (1, 0): ("(f + g * g) * v * dx", ["v"]),
+    # variant 1: each updatable field enters through its value AND its gradient (several per-node arrays per field)
+    (2, 1): ("f * inner(grad(f), grad(g)) * u * v * dx + g * inner(grad(u), grad(v)) * dx", ["u", "v"]),
+    (1, 1): ("(f * inner(grad(f), grad(f)) + g * inner(grad(g), grad(f))) * v * dx", ["v"]),
 }
 
 
@@ -337,13 +340,13 @@ def setup_wrapper(tier):
     from pyiga import assemble, bspline, geometry
     base = os.environ.get("XDG_CACHE_HOME", "/tmp")
     os.makedirs(base, exist_ok=True)
-    jobs = [(d, a) for d in (1, 2) for a in (1, 2)]
+    jobs = [(d, a, w) for d in (1, 2) for a in (1, 2) for w in (0, 1)]
     k = int(os.environ.get("VERIF_SHARD", "0")) % len(jobs)
-    for dim, arity in jobs[k:] + jobs[:k]:
-        with open(os.path.join(base, "c08-wrap-%d-%d.lock" % (dim, arity)), "w") as lk:
+    for dim, arity, var in jobs[k:] + jobs[:k]:
+        with open(os.path.join(base, "c08-wrap-%d-%d-%d.lock" % (dim, arity, var)), "w") as lk:
             fcntl.flock(lk, fcntl.LOCK_EX)
             kvs = tuple(bspline.make_knots(1, 0.0, 1.0, 1) for _ in range(dim))
-            text, bf = WRAP_PROBLEMS[arity]
+            text, bf = WRAP_PROBLEMS[(arity, var)]
             f = _field(dim, [1.0])
             assemble.Assembler(text, kvs, args={"geo": geometry.unit_cube(dim=dim), "f": f, "g": f}, bfuns=bf, updatable=["f", "g"])
 
@@ -354,7 +357,7 @@ def check_wrapper_history(spec, ctx):
     kvs = tuple(gk.pyiga_kv(k) for k in spec["kvs"])
     geo = gg.build_geometry(spec["geo"])[0]
     pool = [_field(dim, sd, p=1 + (i % 2)) for i, sd in enumerate(spec["pool"])]
-    text, bf = WRAP_PROBLEMS[spec["arity"]]
+    text, bf = WRAP_PROBLEMS[(spec["arity"], spec.get("variant", 0))]
     cur = dict(spec["init"])
     args = {"geo": geo, "f": pool[cur["f"]], "g": pool[cur["g"]]}
     # (assemble_entries rejects symmetric=True in 1D with an explicit "not implemented in 1D")
@@ -397,7 +400,7 @@ def check_wrapper_history(spec, ctx):
         if cur in seen[:-1]:
             revert = True
         seen.append(dict(cur))
-    ctx.flag("dim%d" % dim, "arity%d" % spec["arity"], "symmetric" if sym else None,
+    ctx.flag("dim%d" % dim, "arity%d" % spec["arity"], "symmetric" if sym else None, "field_value_and_gradient" if spec.get("variant") else None,
              "explicit_update_then_assemble" if explicit_before_assemble else None, "returns_to_earlier_fields" if revert else None)
     ctx.nontrivial = n_asm >= 2 and explicit_before_assemble
 
@@ -419,7 +422,8 @@ def strat_wrapper(draw):
             stp["format"] = draw(st.sampled_from(["csr", "csr", "csc", "coo"])) if arity == 2 else "csr"
         steps.append(stp)
     return {"dim": dim, "arity": arity, "kvs": kvs, "geo": draw(gg.geometry_map(dim, pmax=2, nmax=2)), "pool": pool,
-            "init": {"f": draw(idx), "g": draw(idx)}, "symmetric": draw(st.booleans()), "steps": steps}
+            "init": {"f": draw(idx), "g": draw(idx)}, "symmetric": draw(st.booleans()), "steps": steps,
+            "variant": draw(st.integers(0, 1))}
 
 
 PREDEF = ["MassAssembler", "StiffnessAssembler", "HeatAssembler_ST", "WaveAssembler_ST", "DivDivAssembler", "L2FunctionalAssembler",
